@@ -276,7 +276,7 @@ def run_pack(rep, drv, tier, workers):
                     sig = pack_sig_base(c)
                     sig.update(fn="unpack" if "data" in c else "pack/unpack", why="crash" if "crash" in o else "hang",
                                reason=c["unp"].get("why", "") if "data" in c else "", at=c["unp"].get("at", "") if "data" in c else "")
-                    rep.violation(sig, {"cmd": "lua-run", "format": "".join(c["f"]), "case": c, "detail": o.get("crash", "hang"),
+                    rep.violation(sig, {"cmd": "lua-run", "kind": "pack", "format": "".join(c["f"]), "spec": c, "detail": o.get("crash", "hang"),
                                         "src": "\n".join(pack_render(0, c))})
                     st["bad"] += 1
                     st["notrun"] = st.get("notrun", 0) + len(grp) - k - 1
